@@ -70,6 +70,7 @@ Eval(i) ==
           ELSE /\ PrintT(<<"PROP", <<"C14", "RoundTripKeepsState">>, rec.h, rec.i>>)
                /\ PrintT(<<"PROP", <<"C03", "RoundTripKeepsState">>, rec.h, rec.i>>)
                /\ PrintT(<<"SNAPDIFF", rec.h, rec.i, DiffFields(a, b)>>)
+               /\ IF PrivProj(a) # PrivProj(b) THEN PrintT(<<"PROP", <<"C13", "RoundTripKeepsPrivileges">>, rec.h, rec.i>>) ELSE TRUE
        /\ \A pf \in StateInvFailures(b) : PrintT(<<"PROP", pf, rec.h, rec.i>>)
        /\ \A k \in DOMAIN rec.lookup :
              IF rec.lookup[k][2] = "nosuch" /\ Sid(rec.lookup[k][1], 0) \in DOMAIN b.ss
